@@ -162,3 +162,51 @@ def run(ctx):
             ctx.ob('C09.3', g, 'hash-iteration-sorted:' + (g.lname(v) if v is not None else '?'), sorted_ok,
                    'hash iteration (%s) %s' % (s.name, 'is collected and sorted with a tie-break before use' if sorted_ok else why), line=s.line)
     ctx.floor('C09.3', 'hash iterations in compaction_auto_summary', n, 2)
+
+    # ---------------------------------------------------------------- C09.5
+    ctx.rule('C09.5', 'the latest checkpoint is chosen by to_seq, not by position: every function that selects "the latest / the hierarchy of" compaction checkpoints at or before a bound (latest_* / hierarchical_* in the store and in the sidecar cache) contains an ordering comparison between the to_seq of two candidates, or hands a to_seq-reading closure to max_by* / min_by* / sort*. Stream order is not to_seq order (cut points are compacted latest-first, older ones are back-filled later): "the first match walking newest-first" reports a back-filled older cut point as the latest, the newest one looks un-checkpointed and a no-op compaction.auto appends a duplicate job and checkpoint.')
+    sel = [g for p_, g in sorted(P.fns.items()) if re.search(r'^ripd::(continuities::ContinuityStore|continuity_stream_cache::ContinuityStreamCache)::(latest|hierarchical)_compaction_checkpoints?_\w+$', p_)]
+    ctx.floor('C09.5', 'checkpoint selection functions', len(sel), 4)
+
+    def ts_locals(g):
+        out = set()
+        for bi in g.reachable():
+            for st in g.blocks[bi]['s']:
+                rv = st.get('rv')
+                if not rv:
+                    continue
+                pls = [op_place(o) for o in rv.get('a', [])] + ([rv['pl']] if 'pl' in rv else [])
+                if any(pl and any(isinstance(pp, dict) and pp.get('n') == 'to_seq' for pp in pl.get('p', [])) for pl in pls):
+                    out.add(st['d']['l'])
+        return out
+    for g in sel:
+        ctx.touch(g)
+        fam = [g] + list(P.closures_of(g.path))
+        ordered = False
+        how = ''
+        for h in fam:
+            T = ts_locals(h)
+            for bi in h.reachable():
+                for st in h.blocks[bi]['s']:
+                    rv = st.get('rv')
+                    if rv and rv['k'] == 'bin' and rv['op'] in ('Gt', 'Ge', 'Lt', 'Le') and T:
+                        a, b = rv['a']
+                        ra = reads_locals(h, a) & T if op_place(a) else set()
+                        rb = reads_locals(h, b) & T if op_place(b) else set()
+                        if ra and rb and ra != rb:
+                            ordered = True
+                            how = 'comparison of two to_seq values (line %s)' % st.get('ln')
+        if not ordered:
+            for s_ in g.sites():
+                if re.search(r'::(max_by_key|max_by|min_by_key|min_by|sort_by|sort_by_key|sort_unstable_by|sort_unstable_by_key|sort_by_cached_key)$', s_.callee):
+                    for a in s_.args:
+                        o = g.origin(a)
+                        if o[0] == 'rv' and o[1].get('ak') == 'closure' and o[1].get('def') in P.fns and ts_locals(P.fns[o[1]['def']]):
+                            ordered = True
+                            how = '%s keyed on to_seq (line %d)' % (s_.name, s_.line)
+        # a function that only forwards to another selection function inherits its verdict
+        if not ordered and any(s_.callee in {x.path for x in sel if x is not g} for s_ in g.sites()):
+            ordered = True
+            how = 'delegates to another selection function'
+        ctx.ob('C09.5', g, 'selected-by-to_seq', ordered, '%s: %s' % (g.path.rsplit('::', 1)[-1], how if ordered else
+               'NO ordering on to_seq among the candidates (first / last match by position): a back-filled older cut point can shadow the newest one'), line=g.line)
